@@ -371,4 +371,246 @@ Section Explain.
           -- reflexivity.
         * destruct sep; [congruence|]. exact Hsr.
   Qed.
+
+  (* ---- GSUB4 mappings ---- *)
+  Definition lig_ok (p : N * (list N * N)) : Prop :=
+    gids_ok F (fst p :: fst (snd p)) = true /\ snd (snd p) < num_glyphs F.
+
+  Lemma Lx_seq4 : forall mm sep first, sep_first sep first -> Forall lig_ok mm ->
+    Lx (explain_seq4 U F mm sep) (seq4_toks U F mm first) 0 /\ rest_ok (explain_seq4 U F mm sep).
+  Proof.
+    induction mm as [|[key [comps out]] rest IH]; intros sep first Hs Hm.
+    - split; [apply Lx_nil|exact I].
+    - destruct (LxH_sep _ _ Hs) as (Hsep & Hsr & Hsn).
+      inversion Hm as [|? ? Hk Hrest]; subst. destruct Hk as [Hk Ho]. cbn [fst snd] in Hk, Ho.
+      destruct (IH k_comma false (or_intror (conj eq_refl eq_refl)) Hrest) as [IH1 IH2].
+      cbn [explain_seq4 seq4_toks]. split.
+      + eapply Lx_ext.
+        * apply LxH_app_Lx; [exact Hsep|].
+          apply Lx_app; [apply Lx_glyph_list; exact Hk| |reflexivity].
+          apply LxH_app_Lx; [apply LxH_arrow|].
+          apply Lx_app; [apply (Lx_glyph_list [out]); cbn; rewrite andb_true_r; lia|exact IH1|exact IH2].
+        * intros l. cbn [app]. rewrite !N.add_0_r. reflexivity.
+        * reflexivity.
+      + destruct sep; [congruence|]. exact Hsr.
+  Qed.
+
+  (* ---- "g -> X" entries ---- *)
+  Lemma Lx_entries : forall {B} (w : B -> list N) (wt : B -> N -> list token) (P : B -> Prop),
+    (forall x, P x -> Lx (w x) (wt x) 0) ->
+    forall es first, Forall (fun e => fst e < num_glyphs F /\ P (snd e)) es ->
+    Lx (explain_entries U F w es first) (entries_toks U F wt es first) 0
+    /\ rest_ok (explain_entries U F w es first).
+  Proof.
+    intros B w wt P Hw. induction es as [|[g x] es IH]; intros first He.
+    - split; [apply Lx_nil|exact I].
+    - inversion He as [|? ? Hg Hes]; subst. destruct Hg as [Hg Hx]. cbn [fst snd] in Hg, Hx.
+      destruct (IH false Hes) as [IH1 IH2]. cbn [explain_entries entries_toks]. split.
+      + eapply Lx_ext.
+        * apply (LxH_app_Lx U (if first then [32] else k_comma) (fun l => if first then [] else [t_comma l]) 0);
+            [destruct first; [apply LxH_sp|apply LxH_comma]|].
+          apply Lx_app; [apply Lx_glyph; exact Hg| |reflexivity].
+          apply LxH_app_Lx; [apply LxH_arrow|].
+          apply Lx_app; [apply Hw; exact Hx|exact IH1|exact IH2].
+        * intros l. cbn [app]. rewrite !N.add_0_r. destruct first; reflexivity.
+        * reflexivity.
+      + destruct first; reflexivity.
+  Qed.
+
+  (* ---- subtables ---- *)
+  Ltac split_wf H := repeat (apply andb_true_iff in H; destruct H as [H ?]).
+
+  Lemma Lx_subtable : forall s, sub_wf F s = true ->
+    Lx (explain_subtable U F s) (sub_toks U F s) 0 /\ rest_ok (explain_subtable U F s).
+  Proof.
+    intros s W. destruct s as [cov delta|cov subst|cov repl|cov alts|cov repl|cov adj|cov adj];
+      cbn [sub_wf] in W; split_wf W; unfold explain_subtable, sub_toks; cbv beta iota zeta;
+      try (assert (Ha : ascending cov) by (apply ascendingb_spec; assumption));
+      try (assert (Hc : Forall (fun g => g < num_glyphs F) cov) by (apply gids_ok_forall; assumption)).
+    - (* Gsub1_1 *)
+      rewrite !stable_sort_sorted by (apply (ascending_ss_map (fun k => (k + delta) mod 65536)); exact Ha).
+      apply Lx_seq1; [left; auto|].
+      assert (Hd : Forall (fun g => g < num_glyphs F) (map (fun k => (k + delta) mod 65536) cov))
+        by (apply gids_ok_forall; assumption).
+      clear - Hc Hd. induction cov; cbn in *; constructor.
+      + inversion Hc; inversion Hd; subst. split; auto.
+      + inversion Hc; inversion Hd; subst. auto.
+    - (* Gsub1_2 *)
+      rewrite !stable_sort_sorted by (apply ascending_ss_combine; exact Ha).
+      apply Lx_seq1; [left; auto|].
+      assert (Hd : Forall (fun g => g < num_glyphs F) subst) by (apply gids_ok_forall; assumption).
+      apply (Forall_combine (fun g => g < num_glyphs F) (fun g => g < num_glyphs F)); auto.
+    - (* Gsub2_1 *)
+      apply (Lx_entries (write_glyph_list U F) (gl_toks U F) (fun r => gids_ok F r = true)).
+      + intros x Hx. apply Lx_glyph_list; auto.
+      + apply (Forall_combine (fun g => g < num_glyphs F) (fun r => gids_ok F r = true)); auto.
+        match goal with Hx : forallb _ repl = true |- _ => apply forallb_Forall in Hx;
+          eapply Forall_impl; [|exact Hx] end. cbn. intros a Hx.
+        apply andb_true_iff in Hx. tauto.
+    - (* Gsub3_1 *)
+      apply (Lx_entries (write_glyph_set U F) (gs_toks U F) (fun r => gids_ok F r = true)).
+      + intros x Hx. apply LxH_Lx. apply LxH_glyph_set; auto.
+      + apply (Forall_combine (fun g => g < num_glyphs F) (fun r => gids_ok F r = true)); auto.
+        match goal with Hx : forallb _ alts = true |- _ => apply forallb_Forall in Hx;
+          eapply Forall_impl; [|exact Hx] end. cbn. intros a Hx.
+        apply andb_true_iff in Hx. tauto.
+    - (* Gsub4_1 *)
+      rewrite !stable_sort_sorted by (apply ss_groups; exact Ha).
+      apply Lx_seq4; [left; auto|].
+      match goal with Hx : forallb _ repl = true |- _ => apply forallb_Forall in Hx; rename Hx into W0 end.
+      apply Forall_forall. intros [key [comps out]] Hin.
+      apply in_concat in Hin. destruct Hin as (grp & Hgrp & Hin). apply in_map_iff in Hgrp.
+      destruct Hgrp as ([k ls] & E & Hcb). subst grp. cbn [fst snd] in Hin.
+      apply in_map_iff in Hin. destruct Hin as (lg & E & Hlg). inversion E; subst; clear E.
+      pose proof (in_combine_l _ _ _ _ Hcb) as Hk. pose proof (in_combine_r _ _ _ _ Hcb) as Hls.
+      rewrite Forall_forall in Hc, W0. specialize (Hc _ Hk). specialize (W0 _ Hls). cbn in W0.
+      apply andb_true_iff in W0. destruct W0 as [_ W0]. rewrite forallb_forall in W0.
+      specialize (W0 _ Hlg). apply andb_true_iff in W0. destruct W0 as [Wa Wb].
+      cbn [fst snd] in Wa, Wb.
+      split; cbn [fst snd]; [|lia]. unfold gids_ok in *. cbn [forallb]. rewrite Wa.
+      assert (E : (key <? num_glyphs F) = true) by lia.
+      rewrite E. reflexivity.
+    - (* Gpos1_1 *)
+      split; [|reflexivity].
+      change (32 :: write_glyph_set U F cov ++ k_arrow ++ write_value_record adj)
+        with ([32] ++ (write_glyph_set U F cov ++ (k_arrow ++ write_value_record adj))).
+      eapply Lx_ext.
+      + apply LxH_app_Lx; [apply LxH_sp|].
+        apply LxH_app_Lx; [apply LxH_glyph_set; assumption|].
+        apply LxH_app_Lx; [apply LxH_arrow|apply Lx_value].
+      + intros l. cbn. rewrite !N.add_0_r. unfold gs_toks. cbn. rewrite <- app_assoc. reflexivity.
+      + reflexivity.
+    - (* Gpos1_2 *)
+      apply (Lx_entries write_value_record value_toks (fun _ => True)).
+      + intros x _. apply Lx_value.
+      + apply (Forall_combine (fun g => g < num_glyphs F) (fun _ : option vrec => True)); auto.
+        apply Forall_forall. intros; exact I.
+  Qed.
+
+  (* ---- lookups ---- *)
+  Lemma adigit_ident_char : forall c, is_adigit c = true -> ident_char U c = true.
+  Proof.
+    intros c H. unfold ident_char, is_udigit. pose proof H as H'. apply is_adigit_spec in H'.
+    assert (L : (c <? 128) = true) by lia. rewrite L, H. apply orb_true_r.
+  Qed.
+
+  Lemma wf_kw : forall kw n, (kw = k_GSUB \/ kw = k_GPOS) -> wf_name U (kw ++ digits n) = true.
+  Proof.
+    intros kw n [E|E]; subst; cbn; apply forallb_forall; intros c Hc;
+      apply adigit_ident_char; pose proof (digits_all n) as Hd; rewrite forallb_forall in Hd; auto.
+  Qed.
+
+  Lemma Lx_hdr : forall kw lk, (kw = k_GSUB \/ kw = k_GPOS) -> flags_ok (l_flags lk) = true ->
+    Lx (kw ++ digits (l_type lk) ++ [58] ++ explain_flags (l_flags lk)) (hdr_toks kw lk) 0.
+  Proof.
+    intros kw lk Hk Hf. rewrite app_assoc. eapply Lx_ext.
+    - apply Lx_app; [apply Lx_ident; apply wf_kw; exact Hk| |reflexivity].
+      apply LxH_app_Lx; [apply LxH_colon|apply Lx_flags; exact Hf].
+    - intros l. unfold hdr_toks. cbn. rewrite !N.add_0_r. reflexivity.
+    - reflexivity.
+  Qed.
+
+  Section Subs.
+    Variable hdr : list N.
+    Variable hdrt : N -> list token.
+    Hypothesis Hhdr : Lx hdr hdrt 0.
+
+    Lemma Lx_subs_rest : forall subs, Forall (fun s => sub_wf F s = true) subs ->
+      Lx (explain_subs U F hdr subs false) (subs_toks U F hdrt subs false) (N.of_nat (length subs))
+      /\ rest_ok (explain_subs U F hdr subs false).
+    Proof.
+      induction subs as [|s r IH]; intros H.
+      - split; [apply Lx_nil|exact I].
+      - inversion H as [|? ? Hs Hr]; subst. destruct (IH Hr) as [IH1 IH2].
+        destruct (Lx_subtable s Hs) as [S1 S2]. cbn [explain_subs subs_toks]. split; [|reflexivity].
+        eapply Lx_ext.
+        + apply LxH_app_Lx; [apply LxH_or|]. apply Lx_app; [exact S1|exact IH1|exact IH2].
+        + intros l. cbn [app]. rewrite !N.add_0_r. reflexivity.
+        + cbn [length]. lia.
+    Qed.
+
+    Lemma Lx_subs_first : forall subs, Forall (fun s => sub_wf F s = true) subs ->
+      Lx (explain_subs U F hdr subs true) (subs_toks U F hdrt subs true) (subs_dl subs).
+    Proof.
+      intros subs H. destruct subs as [|s r].
+      - apply Lx_nil.
+      - inversion H as [|? ? Hs Hr]; subst. destruct (Lx_subs_rest r Hr) as [R1 R2].
+        destruct (Lx_subtable s Hs) as [S1 S2]. cbn [explain_subs subs_toks].
+        eapply Lx_ext.
+        + apply Lx_app; [exact Hhdr| |apply rest_ok_app; [exact S2|exact R2]].
+          apply Lx_app; [exact S1|exact R1|exact R2].
+        + intros l. cbn [app]. rewrite !N.add_0_r. reflexivity.
+        + unfold subs_dl. cbn [length]. lia.
+    Qed.
+  End Subs.
+
+  Lemma Lx_lookup : forall kw lk, (kw = k_GSUB \/ kw = k_GPOS) -> flags_ok (l_flags lk) = true ->
+    Forall (fun s => sub_wf F s = true) (l_subs lk) ->
+    Lx (explain_lookup U F kw lk) (lookup_toks U F kw lk) (subs_dl (l_subs lk)).
+  Proof.
+    intros kw lk Hk Hf Hs. unfold explain_lookup, lookup_toks.
+    apply Lx_subs_first; auto. apply Lx_hdr; auto.
+  Qed.
+
+  Lemma gsub_lookup_subs : forall lk, gsub_lookup_wf F lk = true ->
+    flags_ok (l_flags lk) = true /\ Forall (fun s => sub_wf F s = true) (l_subs lk).
+  Proof.
+    intros lk H. unfold gsub_lookup_wf in H. apply andb_true_iff in H. destruct H as [H1 H2].
+    split; auto. destruct (l_subs lk) as [|s [|s' r]]; try discriminate.
+    split_wf H2. repeat constructor. auto.
+  Qed.
+
+  Lemma gpos_lookup_subs : forall lk, gpos_lookup_wf F lk = true ->
+    flags_ok (l_flags lk) = true /\ Forall (fun s => sub_wf F s = true) (l_subs lk).
+  Proof.
+    intros lk H. unfold gpos_lookup_wf in H. split_wf H. split; auto.
+    apply forallb_Forall in H0. eapply Forall_impl; [|exact H0]. cbn. intros a Ha.
+    apply andb_true_iff in Ha. tauto.
+  Qed.
+
+  Lemma LxH_gsub : forall ll, Forall (fun lk => gsub_lookup_wf F lk = true) ll ->
+    LxH (M_explain_gsub U F ll) (gsub_toks U F ll) (gsub_dl ll).
+  Proof.
+    induction ll as [|lk r IH]; intros H.
+    - apply LxH_nil.
+    - inversion H as [|? ? Hlk Hr]; subst. destruct (gsub_lookup_subs lk Hlk) as [Hf Hs].
+      unfold M_explain_gsub. cbn [map concat]. fold (M_explain_gsub U F r).
+      eapply LxH_ext.
+      + apply LxH_app; [|apply IH; exact Hr].
+        apply Lx_app_LxH; [apply Lx_lookup; auto|apply LxH_nl|reflexivity|discriminate].
+      + intros l. cbn [gsub_toks]. rewrite <- !app_assoc. cbn [app]. rewrite N.add_assoc. reflexivity.
+      + cbn [gsub_dl]. lia.
+  Qed.
+
+  Lemma Lx_gpos : forall ll, Forall (fun lk => gpos_lookup_wf F lk = true) ll ->
+    Lx (M_explain_gpos U F ll) (gpos_toks U F ll) (gpos_dl ll).
+  Proof.
+    induction ll as [|lk r IH]; intros H.
+    - apply Lx_nil.
+    - inversion H as [|? ? Hlk Hr]; subst. destruct (gpos_lookup_subs lk Hlk) as [Hf Hs].
+      unfold M_explain_gpos in *. destruct r as [|lk' r'].
+      + cbn [map join_nl gpos_toks gpos_dl]. apply Lx_lookup; auto.
+      + change (join_nl (map (explain_lookup U F k_GPOS) (lk :: lk' :: r')))
+          with (explain_lookup U F k_GPOS lk ++ ([10] ++ join_nl (map (explain_lookup U F k_GPOS) (lk' :: r')))).
+        eapply Lx_ext.
+        * apply Lx_app; [apply Lx_lookup; auto| |reflexivity].
+          apply LxH_app_Lx; [apply LxH_nl|apply IH; exact Hr].
+        * intros l. cbn [gpos_toks]. cbn [app]. rewrite ?N.add_assoc. reflexivity.
+        * cbn [gpos_dl]. lia.
+  Qed.
+
+  (* the two statements used by the round-trip theorem *)
+  Lemma lex_explain_gsub : forall ll, Forall (fun lk => gsub_lookup_wf F lk = true) ll ->
+    M_lex U (M_explain_gsub U F ll) = gsub_toks U F ll 1 ++ [tk TEOF [] (1 + gsub_dl ll)].
+  Proof.
+    intros ll H. unfold M_lex. rewrite <- (app_nil_r (M_explain_gsub U F ll)).
+    rewrite (LxH_gsub ll H 1 []). reflexivity.
+  Qed.
+
+  Lemma lex_explain_gpos : forall ll, Forall (fun lk => gpos_lookup_wf F lk = true) ll ->
+    M_lex U (M_explain_gpos U F ll) = gpos_toks U F ll 1 ++ [tk TEOF [] (1 + gpos_dl ll)].
+  Proof.
+    intros ll H. unfold M_lex. rewrite <- (app_nil_r (M_explain_gpos U F ll)).
+    rewrite (Lx_gpos ll H 1 [] I). reflexivity.
+  Qed.
 End Explain.
